@@ -3,8 +3,12 @@
 //!   vcheck <Cxx> [quick|thorough]
 //!   vcheck --replay <file>
 
+mod c03;
 mod c04;
+mod c05;
+mod c09;
 mod crdt;
+mod gen;
 
 use vkit::{json, Tier};
 
@@ -32,7 +36,10 @@ fn main() {
         let case = doc.get("case").cloned().unwrap_or(json::J::Null);
         println!("replaying {} key={}", prop, doc.get("key").and_then(|v| v.as_str()).unwrap_or("?"));
         let code = match prop {
+            "C03" => c03::replay(&case),
             "C04" => c04::replay(&case),
+            "C05" => c05::replay(&case),
+            "C09" => c09::replay(&case),
             _ => {
                 eprintln!("no replay for property {prop:?}");
                 2
@@ -50,7 +57,10 @@ fn main() {
         _ => Tier::Quick,
     };
     let code = match args[0].as_str() {
+        "C03" => c03::run(tier),
         "C04" => c04::run(tier),
+        "C05" => c05::run(tier),
+        "C09" => c09::run(tier),
         _ => usage(),
     };
     std::process::exit(code);
